@@ -27,6 +27,10 @@ pub enum MateCase {
         #[serde(default)]
         history: u8,
     },
+    /// themed small positions where the rare mates live: theme 0 = defender king caged in a corner by its own
+    /// men, attacked by king + minor pieces / pawns; theme 1 = attacker pawn on the seventh rank beside the
+    /// defender king (promotion and under-promotion mates, promotion captures); mirrored / colour-swapped by `sym`
+    Themed { theme: u8, bytes: Vec<u8>, sym: u8, history: u8 },
     /// end of a walk (middlegames): labelled the same way
     WalkEnd { walk: Walk, sample: u8 },
     /// a labelled position given as text (enumerations, shrunk form)
@@ -111,6 +115,102 @@ fn build_small(men: &[(u8, u8)], wk: u8, bk: u8, white: bool) -> Option<Pos> {
     }
 }
 
+fn mirror_files(p: &Pos) -> Pos {
+    let mut b = [b'.'; 64];
+    for s in 0..64usize {
+        b[(s / 8) * 8 + (7 - s % 8)] = p.b[s];
+    }
+    Pos { b, white: p.white, cr: [false; 4], ep: None }
+}
+
+/// Themed construction (always White attacking first; symmetries applied afterwards)
+fn build_themed(theme: u8, bytes: &[u8], sym: u8) -> Option<Pos> {
+    let by = |i: usize| -> usize { bytes.get(i).copied().unwrap_or(0) as usize };
+    let mut b = [b'.'; 64];
+    let put = |b: &mut [u8; 64], s: usize, c: u8| -> bool {
+        if s < 64 && b[s] == b'.' && !(c.to_ascii_lowercase() == b'p' && (s / 8 == 0 || s / 8 == 7)) {
+            b[s] = c;
+            true
+        } else {
+            false
+        }
+    };
+    if theme % 2 == 0 {
+        // corner cage: black king on a8 / b8 / a7, up to two black men beside it
+        let dk = [56usize, 57, 48][by(0) % 3];
+        b[dk] = b'k';
+        let (r, f) = ((dk / 8) as i32, (dk % 8) as i32);
+        let mut adj: Vec<usize> = Vec::new();
+        for dr in -1..=1 {
+            for df in -1..=1 {
+                if (dr, df) != (0, 0) && (0..8).contains(&(r + dr)) && (0..8).contains(&(f + df)) {
+                    adj.push(((r + dr) * 8 + f + df) as usize);
+                }
+            }
+        }
+        for k in 0..(by(1) % 3) {
+            let sq = adj[by(2 + k) % adj.len()];
+            put(&mut b, sq, b"nbprnb"[by(4 + k) % 6]);
+        }
+        // white king two or three squares away
+        let cands: Vec<usize> = (0..64usize).filter(|&s| { let (rr, ff) = ((s / 8) as i32, (s % 8) as i32); let d = (rr - r).abs().max((ff - f).abs()); (2..=3).contains(&d) && b[s] == b'.' }).collect();
+        if cands.is_empty() {
+            return None;
+        }
+        b[cands[by(6) % cands.len()]] = b'K';
+        for k in 0..(1 + by(7) % 3) {
+            let c = b"NBNBNBPPRQ"[by(8 + k) % 10];
+            // near the corner more often than not
+            let sq = if by(11 + k) % 4 != 0 { ((4 + by(14 + k) % 4) * 8 + by(17 + k) % 4) as usize } else { by(14 + k) % 64 };
+            put(&mut b, sq, c);
+        }
+    } else {
+        // promotion: white pawn on the seventh, black king on the eighth within two files
+        let pf = by(0) % 8;
+        b[48 + pf] = b'P';
+        let kf = (pf as i32 + (by(1) % 5) as i32 - 2).clamp(0, 7) as usize;
+        if kf == pf {
+            // king in front of the pawn: put it one rank lower beside instead
+            put(&mut b, 40 + (pf + 1).min(7), b'k');
+            if !b.contains(&b'k') {
+                return None;
+            }
+        } else {
+            b[56 + kf] = b'k';
+        }
+        // a black piece the pawn can capture while promoting, sometimes
+        if by(2) % 2 == 0 {
+            let cf = if by(3) % 2 == 0 { pf.wrapping_sub(1) } else { pf + 1 };
+            if cf < 8 {
+                put(&mut b, 56 + cf, b"rnbq"[by(4) % 4]);
+            }
+        }
+        // other black men near the king
+        for k in 0..(by(5) % 3) {
+            put(&mut b, 40 + by(6 + k) % 24, b"pnbrp"[by(8 + k) % 5]);
+        }
+        let wk = by(10) % 64;
+        if !put(&mut b, wk, b'K') {
+            return None;
+        }
+        for k in 0..(by(11) % 3) {
+            put(&mut b, by(12 + k) % 64, b"RBNQPN"[by(14 + k) % 6]);
+        }
+    }
+    let mut p = Pos { b, white: true, cr: [false; 4], ep: None };
+    if sym & 1 != 0 {
+        p = mirror_files(&p);
+    }
+    if sym & 2 != 0 {
+        p = p.mirror();
+    }
+    if p.sane() {
+        Some(p)
+    } else {
+        None
+    }
+}
+
 #[derive(Debug, Clone, Copy, PartialEq)]
 enum Label {
     Dead,
@@ -164,6 +264,12 @@ impl C10 {
             Label::Mate1 => {
                 let keys: Vec<String> = mate_in_1_moves(p).iter().map(|m| m.uci()).collect();
                 ev.class("mate_in_1_positions");
+                if keys.iter().all(|k| k.len() == 5) {
+                    ev.class("mate_in_1_only_by_promotion");
+                }
+                if !p.b.iter().any(|c| b"QRPqrp".contains(c)) {
+                    ev.class("mate_in_1_with_minor_pieces_only");
+                }
                 for d in [3u8, 4, 5] {
                     ev.eval();
                     let out = search(Some(d))?;
@@ -193,6 +299,9 @@ impl C10 {
             Label::Mate2 => {
                 let keys: Vec<String> = mate_in_2_moves(p).iter().map(|m| m.uci()).collect();
                 ev.class("mate_in_2_positions");
+                if keys.iter().all(|k| k.ends_with('r') || k.ends_with('b') || k.ends_with('n')) {
+                    ev.class("mate_in_2_only_by_under_promotion");
+                }
                 let legal = p.legal();
                 for d in [5u8, 6, 0] {
                     ev.eval();
@@ -276,7 +385,7 @@ impl Prop for C10 {
     }
 
     fn rule(&self) -> String {
-        "Cases: random small-material positions (kings + 1-6 men) and ends of generated walks, labelled by the reference model's own solver: no legal move; mate in 1; forced mate in 2 (no mate in 1; a move after which the opponent has a reply and every reply allows mate in 1); everything else is counted as an unlabelled candidate and not searched. Fresh table each time; half of the labelled positions stand at the end of a game record of 40, 160, 300 or 380 plies (both sides shuffling a piece out and back), as after `position … moves …`. Mate in 1: depth 3, 4, 5 and an unlimited search must return a mating move, and the unlimited search must return by itself with no iteration beyond depth 5. Mate in 2: depth 5, 6 and unlimited must return a key move or a move after which the model can still prove a forced mate within 3 more moves (solver budget exhaustion = inconclusive); unlimited search must end by itself at depth <= 7. No legal move: the search returns no move (and the binary prints `bestmove none`). A sample goes through the real binary. Thorough adds the exhaustive KQK and KRK tables. evaluations = searches judged. Non-trivial = every labelled position; distinct by position.".into()
+        "Cases: random small-material positions (kings + 1-6 men), themed small positions (defender king caged in a corner by its own men against king + minor pieces / pawns; attacker pawn on the seventh rank beside the defender king - promotion, under-promotion and promotion-capture mates; all mirrored and colour-swapped) and ends of generated walks, labelled by the reference model's own solver: no legal move; mate in 1; forced mate in 2 (no mate in 1; a move after which the opponent has a reply and every reply allows mate in 1); everything else is counted as an unlabelled candidate and not searched. Fresh table each time; half of the labelled positions stand at the end of a game record of 40, 160, 300 or 380 plies (both sides shuffling a piece out and back), as after `position … moves …`. Mate in 1: depth 3, 4, 5 and an unlimited search must return a mating move, and the unlimited search must return by itself with no iteration beyond depth 5. Mate in 2: depth 5, 6 and unlimited must return a key move or a move after which the model can still prove a forced mate within 3 more moves (solver budget exhaustion = inconclusive); unlimited search must end by itself at depth <= 7. No legal move: the search returns no move (and the binary prints `bestmove none`). A sample goes through the real binary. Thorough adds the exhaustive KQK and KRK tables. evaluations = searches judged. Non-trivial = every labelled position; distinct by position.".into()
     }
 
     fn assumptions(&self) -> Vec<String> {
@@ -287,7 +396,7 @@ impl Prop for C10 {
     }
 
     fn cases(&self, tier: Tier) -> u32 {
-        tier.pick(160_000, 3_000_000)
+        tier.pick(640_000, 6_000_000)
     }
 
     fn shard_timeout_s(&self, tier: Tier) -> u64 {
@@ -304,6 +413,7 @@ impl Prop for C10 {
             9 => (men, 0u8..64, 0u8..64, any::<bool>(), any::<u8>(), prop::bool::weighted(0.05), 0u8..8)
                 .prop_map(|(men, wk, bk, white, sample, via_uci, history)| MateCase::Small { men, wk, bk, white, sample, via_uci, history }),
             1 => (walk_strategy(false), any::<u8>()).prop_map(|(walk, sample)| MateCase::WalkEnd { walk, sample }),
+            8 => (prop_oneof![1 => Just(0u8), 2 => Just(1u8)], proptest::collection::vec(any::<u8>(), 20..21), 0u8..4, 0u8..8).prop_map(|(theme, bytes, sym, history)| MateCase::Themed { theme, bytes, sym, history }),
         ]
         .boxed()
     }
@@ -312,6 +422,16 @@ impl Prop for C10 {
         let (p, sample, via_uci, history) = match case {
             MateCase::Small { men, wk, bk, white, sample, via_uci, history } => match build_small(men, *wk, *bk, *white) {
                 Some(p) => (p, *sample, *via_uci, *history),
+                None => {
+                    ev.skip("construction did not yield a sane position");
+                    return Ok(());
+                }
+            },
+            MateCase::Themed { theme, bytes, sym, history } => match build_themed(*theme, bytes, *sym) {
+                Some(p) => {
+                    ev.class(if theme % 2 == 0 { "themed_corner_cage_candidates" } else { "themed_promotion_candidates" });
+                    (p, 0, false, *history)
+                }
                 None => {
                     ev.skip("construction did not yield a sane position");
                     return Ok(());
